@@ -68,10 +68,18 @@ def parse_filter_dict(filter_dict: Dict[str, Any]) -> List[FilterExpression]:
                 lo, hi = value
                 expressions.append(FilterExpression(column, FilterOp.GE, lo))
                 expressions.append(FilterExpression(column, FilterOp.LE, hi))
-            elif op_str_lower in ("is_null", "isnull"):
-                expressions.append(FilterExpression(column, FilterOp.IS_NULL, None))
-            elif op_str_lower in ("is_not_null", "notnull", "isnotnull"):
-                expressions.append(FilterExpression(column, FilterOp.IS_NOT_NULL, None))
+            elif op_str_lower in ("is_null", "isnull", "is_not_null", "notnull", "isnotnull"):
+                # The operand is a flag: ("is_null", False) asks for the
+                # complement. It used to be ignored, so the rows returned were
+                # exactly the ones the caller excluded.
+                want_null = op_str_lower in ("is_null", "isnull")
+                if value is False:
+                    want_null = not want_null
+                expressions.append(
+                    FilterExpression(
+                        column, FilterOp.IS_NULL if want_null else FilterOp.IS_NOT_NULL, None
+                    )
+                )
             else:
                 op = _parse_op(op_str)
                 _check_value(column, op, value)
